@@ -2,7 +2,7 @@
 // harper-core/src/linting/correct_number_suffix.rs). BOUNDED stand-in for the parts of C17 that are not
 // under a Verus/Kani contract (lex_number, condense_number_suffixes, CorrectNumberSuffix::lint):
 // for every n in a set of 221 integers (0..=125, round years, boundaries of 10^k incl. 10^15, 2^32 +, 2^53 - 120 ..), each
-// of the 4 suffixes in 4 letter cases, at 3 positions in a sentence: a lint is reported exactly when
+// of the 4 suffixes in 4 letter cases, at 4 positions in a sentence (one after a plain and a hex number), followed by more text or ending the text: a lint is reported exactly when
 // the suffix is not the English ordinal suffix of n, it covers exactly the two suffix letters, its
 // only suggestion is the correct suffix, and after applying it nothing is reported.
 use crate::Document;
@@ -20,7 +20,8 @@ fn rac_number_suffix_rule() {
         for d in [1u64, 2, 3, 4, 11, 12, 13, 21, 101, 111, 112] { ns.push(k + d); }
     }
     ns.extend([1000u64, 1990, 2000, 2020, 1980, 10_000, 1_000_000]);
-    let prefixes = ["", "She finished in ", "On the \"big\" day, the "];
+    let prefixes = ["", "She finished in ", "On the \"big\" day, the ", "I bought 3 apples and 0x1F pears on the "];
+    let tails = [" place.", ""];
     let mut cases = 0u64;
     let mut nontrivial = 0u64;
     for n in &ns {
@@ -28,8 +29,8 @@ fn rac_number_suffix_rule() {
         for suf in ["st", "nd", "rd", "th"] {
             for case in 0..4 {
                 let s: String = suf.chars().enumerate().map(|(i, c)| if case & (1 << i) != 0 { c.to_ascii_uppercase() } else { c }).collect();
-                for p in prefixes.iter() {
-                    let text = format!("{}{}{} place.", p, n, s);
+                for (p, tail) in prefixes.iter().flat_map(|p| tails.iter().map(move |t| (p, t))) {
+                    let text = format!("{}{}{}{}", p, n, s, tail);
                     let chars: Vec<char> = text.chars().collect();
                     let doc = Document::new_plain_english_curated(&text);
                     let lints = CorrectNumberSuffix.lint(&doc);
@@ -96,5 +97,5 @@ fn rac_number_suffix_rule() {
             }
         }
     }
-    println!("RAC-OK number_suffix_rule cases={} nontrivial={} bound=221-integers-x-16-suffix-variants-x-3-positions+2-ordinals-per-text", cases, nontrivial);
+    println!("RAC-OK number_suffix_rule cases={} nontrivial={} bound=221-integers-x-16-suffix-variants-x-8-positions+2-ordinals-per-text", cases, nontrivial);
 }
